@@ -669,6 +669,68 @@ fn c12_skip_length_delimited_nodes() {
 	skip_equals_read!(&UU, input, len);
 }
 
+/// Modular step for decimal nodes: `read_decimal` cannot be executed by CBMC (rust_decimal), so its
+/// CONTRACT stands in for it - ASSUMED, not discharged (A11): "reads exactly the decimal's own bytes
+/// (fixed: `size` bytes, no length prefix; bytes: prefix + length) and hands the value to the visitor".
+/// The stand-in records that it was called and for which representation, and consumes a fixed
+/// decimal's bytes; the obligation on the CALLER (`deserialize_ignored_any`, `deserialize_any`) is that a
+/// decimal node is routed here and nowhere else (e.g. not to the length-delimited skip).
+static mut READ_DECIMAL_CALLED_FOR_FIXED_SIZE: usize = usize::MAX;
+fn contract_read_decimal<'de, R, V>(
+	state: &mut DeserializerState<R>,
+	decimal_mode: DecimalMode<'_>,
+	_hint: VisitorHint,
+	_visitor: V,
+) -> Result<V::Value, DeError>
+where
+	R: ReadSlice<'de>,
+	V: Visitor<'de>,
+{
+	if let DecimalMode::Regular(Decimal { repr: DecimalRepr::Fixed(fixed), .. }) = decimal_mode {
+		unsafe { READ_DECIMAL_CALLED_FOR_FIXED_SIZE = fixed.size };
+		let n = fixed.size;
+		if state.skip_bytes(n as u64).is_err() {
+			return Err(DeError::new("eof"));
+		}
+	}
+	Err(DeError::new("value not produced by the stand-in"))
+}
+
+//@ harness: c12_skip_decimal_fixed_delegates
+//@   props: C12
+//@   tier: quick
+//@   kind: complete (modular: read_decimal replaced by its ASSUMED contract, A11)
+//@   fn: de::deserializer::DatumDeserializer::{deserialize_ignored_any, deserialize_any} on a decimal-over-fixed(8) node
+//@   domain: every input of length 0..=10
+//@   post: both ignoring and reading a fixed-backed decimal are routed to read_decimal with the node's fixed representation, and nothing else consumes input: exactly 8 bytes are consumed when available (in particular no length prefix is read, as it would be for a length-delimited type)
+#[kani::proof]
+#[kani::unwind(13)]
+#[kani::stub(alloc::fmt::format, stub_format)]
+#[kani::stub(read_decimal, contract_read_decimal)]
+fn c12_skip_decimal_fixed_delegates() {
+	static DF: SchemaNode<'static> = decimal_fixed_node(8, 2);
+	let buf: [u8; 10] = kani::any();
+	let len: usize = kani::any();
+	kani::assume(len <= 10);
+	let input = &buf[..len];
+	let mut st = state_over(&DF, input);
+	let r = st.deserializer().deserialize_ignored_any(IgnoredAny);
+	let consumed = len - remaining(&mut st.reader);
+	assert!(unsafe { READ_DECIMAL_CALLED_FOR_FIXED_SIZE } == 8, "OBL C12.skip.fixed_decimal_is_routed_to_read_decimal_with_its_fixed_size");
+	if len >= 8 {
+		assert!(consumed == 8, "OBL C12.skip.fixed_decimal_consumes_exactly_its_fixed_size");
+	} else {
+		assert!(consumed == 0, "OBL C12.skip.short_input_not_partially_consumed_by_the_caller");
+	}
+	std::mem::forget(r);
+	unsafe { READ_DECIMAL_CALLED_FOR_FIXED_SIZE = usize::MAX };
+	let mut st = state_over(&DF, input);
+	let r = st.deserializer().deserialize_any(Swallow);
+	assert!(unsafe { READ_DECIMAL_CALLED_FOR_FIXED_SIZE } == 8, "OBL C12.read.fixed_decimal_is_routed_to_read_decimal");
+	assert!(len - remaining(&mut st.reader) == if len >= 8 { 8 } else { 0 }, "OBL C12.skip.consumes_exactly_what_reading_consumes");
+	std::mem::forget(r);
+}
+
 // ---- C04: depth budget
 
 /// Visitor/seed pair that records the depth budget of the child deserializer it is handed.
